@@ -19,7 +19,7 @@ EXPLANATION = ("accepted source documents in both formats (binary: spec-derived 
 
 def run(ctx):
     rng = ctx.rng
-    forests = binlib.boundary_forests()[:120] + binlib.gen_forests(ctx, ctx.scale(500, 12000), {"depth": 4})
+    forests = [f for f in binlib.boundary_forests() if len(str(f)) < 40000] + binlib.gen_forests(ctx, ctx.scale(500, 12000), {"depth": 4})
     srcs = []
     for f in forests:
         srcs.append((f, iongen.Enc(rng, True).stream(f)))
